@@ -15,6 +15,7 @@ type GenOpts struct {
 	SmallCaps      bool // bounded caches with tiny capacities (miss / evict / reload paths run)
 	AllowTinyLFU   bool
 	ShortExpiry    bool
+	ZeroExpiry     bool // ExpireKeyAfter = 0 in one run of six (every key counts as expired at once)
 	NoSimple       bool // only bounded (evicting) key caches
 }
 
@@ -24,7 +25,7 @@ var (
 	capsAll      = []int{1000, 1, 2, 3, 5, 99, 100, 101, 150}
 	capsSmall    = []int{1, 2, 3, 5}
 	expires      = []time.Duration{90 * 24 * time.Hour, 10 * time.Minute, 24 * time.Hour}
-	revokes      = []time.Duration{60 * time.Minute, 30 * time.Second, 10 * time.Minute}
+	revokes      = []time.Duration{60 * time.Minute, 30 * time.Second, 10 * time.Minute, 0}
 	precisions   = []time.Duration{time.Minute, time.Second, time.Hour, 24 * time.Hour, 0}
 	sessDurs     = []time.Duration{2 * time.Hour, 5 * time.Second, 0}
 	sessSizes    = []int{1000, 1, 2, 3, 10}
@@ -73,6 +74,9 @@ func GenPolicy(t *simrt.Tape, o GenOpts) PolicyCfg {
 		c.Expire = expires[1+t.Choose(2, "cfg.expire")]
 	} else {
 		c.Expire = expires[t.Choose(len(expires), "cfg.expire")]
+	}
+	if o.ZeroExpiry && t.Choose(6, "cfg.zero-expiry") == 1 {
+		c.Expire = 0
 	}
 	c.Revoke = revokes[t.Choose(len(revokes), "cfg.revoke")]
 	c.Precision = precisions[t.Choose(len(precisions), "cfg.precision")]
